@@ -223,6 +223,7 @@ def _work(item):
             for proto in ((None, 2) if tier != "quick" else (None,)):
                 n += 1
                 try:
+                  with core.time_limit(60):
                     b = io.BytesIO()
                     joblib.dump(a, b, compress=comp, protocol=proto)
                     got = joblib.load(io.BytesIO(b.getvalue()))
@@ -232,6 +233,9 @@ def _work(item):
                         why = same_array(np, a, got2, byteorder_strict=True)
                         if why:
                             why = "strict-" + why
+                except core.Watchdog as e:
+                    why = "no-termination"
+                    got = e
                 except Exception as e:  # noqa
                     why = "raises:%s" % type(e).__name__
                     got = e
